@@ -416,9 +416,14 @@ func Monitors(h History, tr *Trace) []Failure {
 				}
 				if vs.Tokens != fmt.Sprint(op.Power) || vs.Shares != new(big.Int).Mul(new(big.Int).SetUint64(op.Power), ten18).String() || vs.SelfDel != vs.Shares {
 					add("C14", "C14/tokens-or-shares-differ-from-request:"+valClass(prev, v), ht, "validator %d power %d tokens %s shares %s del %s", v, op.Power, vs.Tokens, vs.Shares, vs.SelfDel)
+					add("C03", "C03/target-stake-differs-from-request:"+valClass(prev, v), ht, "validator %d power %d tokens %s shares %s del %s", v, op.Power, vs.Tokens, vs.Shares, vs.SelfDel)
 				}
 			case "remove":
 				removed[v] = true
+				// a removal leaves the target without tokens, shares and self-delegation
+				if vs.Tokens != "0" || vs.Shares != "0" || vs.SelfDel != "0" {
+					add("C03", "C03/removed-validator-keeps-stake", ht, "validator %d tokens %s shares %s del %s", v, vs.Tokens, vs.Shares, vs.SelfDel)
+				}
 			}
 		}
 		for v, gone := range removed {
@@ -490,6 +495,20 @@ func Monitors(h History, tr *Trace) []Failure {
 			}
 			if !targeted && !jailChanged[vid] && !punished[vid] && !nowJailed && !capInPlay {
 				add("C13", "C13/power-decreased-without-cause:"+valClass(prev, vid), ht, "validator %d %d->%d", vid, pp, np)
+			}
+		}
+		// C13(b'): x/slashing refuses an unjail for a self-delegation below the minimum only if the validator's tokens are below it:
+		// under PoA a validator's tokens are its self-delegation (C14), so a jailed validator with tokens can always come back
+		// (judged on validators this block's BeginBlock did not slash: the tokens are those of the previous block's end)
+		for i, t := range bt.Spec.Txs {
+			if i >= len(bt.TxOut) || len(t.Msgs) != 1 || t.Msgs[0].Kind != "unjail" {
+				continue
+			}
+			if bt.TxOut[i] != "err 3 7" && bt.TxOut[i] != "err 3 6" {
+				continue
+			}
+			if pv, ok := prev.Vals[t.Msgs[0].Val]; ok && !punished[t.Msgs[0].Val] && !jailChanged[t.Msgs[0].Val] && bigOf(pv.Tokens).Cmp(bigOf(pv.MSD)) >= 0 && bigOf(pv.Tokens).Sign() > 0 {
+				add("C13", "C13/unjail-refused-for-self-delegation-although-the-validator-holds-tokens:"+bt.TxOut[i], ht, "validator %d tokens %s msd %s self-delegation %s", t.Msgs[0].Val, pv.Tokens, pv.MSD, pv.SelfDel)
 			}
 		}
 		// C13(a'): only a successful unjail clears the jailed flag
